@@ -574,7 +574,10 @@ class Schema:
             outer = eng.bags_of(args[0], st)
             res = []
             for ob in outer:
-                inner = eng.bags_of(ob.elem, st)
+                # the inner iterable is evaluated for an element of the outer one: its membership condition holds
+                s_in = st.fork()
+                s_in.assume(z3.And(ob.cond, ob.defs), "element of the outer iterable")
+                inner = eng.bags_of(ob.elem, s_in)
                 for ib in inner:
                     res.append(Bag(ob.binders + ib.binders, z3.And(ob.cond, ib.cond), ib.elem, tag=ib.tag,
                                    defs=z3.And(ob.defs, ib.defs), aux=ob.aux + ib.aux))
